@@ -42,6 +42,7 @@ def json_spec(names):
 def run(ctx):
     _zinc.ladder_check(ctx, 'C06.D2', 'jsondumper', 'json')
     _shape(ctx)
+    _zinc.version_threading(ctx, 'C06.D2', 'jsondumper')
     for version in ('3.0', '2.0'):
         for kind in _zinc.kinds_for(version):
             _kind(ctx, kind, version)
